@@ -1,4 +1,5 @@
 import BoltonsVerif.C08.Proofs
+import BoltonsVerif.Generated.C08_Facts
 /-
 C08 — property theorems for the models of `remap` / `research` / `get_path`
 (statements, short derivations from `Proofs.lean`, non-vacuity examples).
@@ -407,5 +408,73 @@ theorem custom_callbacks_generalise_default (vf : VisitFn Val) (kd : Kind) (its 
     (hn : isize its < n) :
     gRoot (dflt vf) n (.node kd its) = some (.ok (remapRec ⟨vf, defaultExit⟩ (.node kd its))) :=
   gRoot_default vf kd its n hn
+
+
+/-! ## facts regenerated from the current source on every run (`Generated/C08_Facts.lean`)
+
+`regen()` EVALUATES `default_enter`, `default_exit`, `remap` and `research` of the current source on fixed
+samples (one per leaf class and container kind) and writes the resulting tables; the theorems below
+re-establish, on every run, that the model's built-in default callbacks produce exactly those tables.
+An equivalent rewrite of the source gives the same tables (nothing is pattern-matched). -/
+
+def keyTok : Atom → String
+  | .none => "n"
+  | .int i => "i" ++ toString i
+  | .str s => "s:" ++ s
+  | _ => "?"
+
+def kindTok : Kind → String
+  | .dict => "D" | .list => "L" | .tuple => "T" | .set => "S" | .fset => "F"
+
+/-- `{'a': 5, None: 6}` / `[5, 6]` / `(5, 6)` / `{5, 6}` / `frozenset({5, 6})` -/
+def twoItems (kd : Kind) : Val :=
+  .node kd (.cons (.str "a") (.leaf (.int 5)) (.cons .none (.leaf (.int 6)) .nil))
+
+def enterSamples : List (String × Val) :=
+  [("none", .leaf .none), ("int", .leaf (.int 5)), ("str", .leaf (.str "ab")), ("bytes", .leaf (.bytes [97, 98])),
+   ("float", .leaf (.float 3)), ("bool", .leaf (.bool true)), ("other", .leaf (.other 0)),
+   ("dict", twoItems .dict), ("list", twoItems .list), ("tuple", twoItems .tuple), ("set", twoItems .set),
+   ("fset", twoItems .fset)]
+
+/-- what the model's `default_enter` does on the samples, in the format of `Gen.enterTable` -/
+def modelEnterTable : List (String × Bool × String × List String) :=
+  enterSamples.map fun s =>
+    match defaultEnterG [] .none s.2 with
+    | none => (s.1, false, "", [])
+    | some (.node kd its, items) => (s.1, its.length == 0, kindTok kd, items.map fun kv => keyTok kv.1)
+    | some (.leaf _, _) => (s.1, false, "?", [])
+
+/-- `default_enter` of the current source, evaluated on one sample per leaf class and container kind,
+    does what the model's does: scalars (str and bytes included) are not traversed; a container gives an
+    empty container of its own class, dict items under their own keys, the members of sequences and
+    sets under 0, 1, … -/
+theorem default_enter_table_matches_model : Gen.enterTable = modelEnterTable := by decide +kernel
+
+mutual
+def plainT : Val → String
+  | .leaf a => keyTok a
+  | .node kd its => kindTok kd ++ "[" ++ plainIts (kd == .dict) true its ++ "]"
+def plainIts (isDict first : Bool) : Items → String
+  | .nil => ""
+  | .cons k v r =>
+    (if first then "" else ",") ++ (if isDict then keyTok k ++ "=" else "") ++ plainT v ++ plainIts isDict false r
+end
+
+/-- new items with a repeated key: `[(0, 5), (1, 6), (0, 7)]` -/
+def exitSampleItems : List (Key × Val) := [(.int 0, .leaf (.int 5)), (.int 1, .leaf (.int 6)), (.int 0, .leaf (.int 7))]
+
+def modelExitTable : List (String × String) :=
+  [("dict", Kind.dict), ("list", .list), ("tuple", .tuple), ("set", .set), ("fset", .fset)].map fun nk =>
+    (nk.1, plainT (defaultExit [] .none (.node nk.2 .nil) exitSampleItems))
+
+/-- `default_exit` of the current source on an empty new parent of each kind: a container of the new
+    parent's class; a dict keeps the position of a repeated key and takes its last value; sequences and
+    sets take the values in order and ignore the keys -/
+theorem default_exit_table_matches_model : Gen.exitTable = modelExitTable := by decide +kernel
+
+/-- the keyword defaults the harness relies on when it calls without them: a raising visit propagates
+    (`reraise_visit=True`, cf. `copyH`), a raising query does not (`reraise=False`) -/
+theorem keyword_defaults_match_model :
+    Gen.reraiseVisitDefault = copyH.reraise ∧ Gen.researchReraiseDefault = false := by decide
 
 end C08
